@@ -103,6 +103,8 @@ def gen_apply_op(rng, n_jobs, with_failures=True):
         op['join_first'] = True
     if rng.random() < .3:
         op['init'] = True
+    if rng.random() < .2:
+        op['bare_args'] = True          # apply_async(f, 3): a bare value instead of a tuple (0 is one of them)
     if rng.random() < .3:
         op['cb_dur'] = rng.choice([0.05, 0.5])      # slow callbacks: another outcome may arrive while one is being delivered
     return op
@@ -138,5 +140,11 @@ def schedule_rules(rng, n_jobs):
         # a handler thread is held up between testing its stop conditions and going to sleep on its condition variable
         {'role': 'restart_handler', 'op': 'lock.acquire', 'obj': None, 'sleep': rng.choice([0.03, 0.1, 0.5]), 'p': .5},
         {'role': 'timeout_handler', 'op': 'event.is_set', 'obj': None, 'sleep': rng.choice([0.03, 0.1]), 'p': .3},
+        # … or an actor is held up right AFTER one of its writes became visible ('+': post-write points)
+        {'role': 'restart_handler', 'op': 'array.set+', 'obj': None, 'sleep': rng.choice([0.15, 0.3]), 'p': .6},
+        {'role': 'Worker-%d' % rng.randrange(n_jobs), 'op': 'array.set+', 'obj': rng.choice(['workers_dead', 'working_on_job', 'restart_array', 'results_received']),
+         'sleep': rng.choice([0.03, 0.15]), 'p': .5},
+        {'role': 'main', 'op': 'event.set+', 'obj': None, 'sleep': rng.choice([0.02, 0.1]), 'p': .4},
+        {'role': 'results_handler', 'op': 'array.set+', 'obj': None, 'sleep': rng.choice([0.02, 0.1]), 'p': .4},
     ]
     return rng.sample(lib, rng.choice([1, 1, 2]))
